@@ -13,7 +13,9 @@ LEVEL = 'exploration'
 RULE = ('histories on the real Bus with raw scripted clients (real handshake and Hello): RequestName with all 8 flag '
         'combinations, ReleaseName, disconnect, connect, by up to 4 clients on up to 2 names; enum: every history of '
         'length <=3 (quick) / <=4 (thorough) over 3 clients x 1 name x {8 request flags, release, disconnect}, '
-        'exhaustive; random: histories to 40 steps with 4 clients and 2 names. After EVERY step the reply code, the '
+        'exhaustive; enum_q3: three requests by three clients with all 8^3 flag combinations followed by every single '
+        'operation (quick) / every pair of operations with flags 0-3 (thorough), exhaustive; random: histories to 40 '
+        'steps with 4 clients and 2 names; dense: 3-12 steps, one name, mostly requests. After EVERY step the reply code, the '
         'NameAcquired / NameLost signals each client received, and GetNameOwner / ListQueuedOwners for every name (asked '
         'by an observer connection) are compared with a reference name table (queue per name, head = owner); '
         'invariants: owner connected, no duplicate or dead queue entries, a released/disconnected client in no queue. '
@@ -240,6 +242,11 @@ def classify(case):
             if model.owner(name) not in (None, ci):
                 nt = True
                 labels.append('contention')
+                q = model.queue.get(name, [])
+                if ci in q and (op[3] & 2) and model.allow.get((name, q[0])):
+                    labels.append('waiter_replaces_owner' if q.index(ci) == 1 else 'later_waiter_replaces_owner')
+                elif ci not in q and (op[3] & 2) and model.allow.get((name, q[0])) and len(q) > 1:
+                    labels.append('newcomer_replaces_owner_with_queue')
             code, _ = model.request(ci, name, op[3])
             model.replaced = None
             labels.append('code%d' % code)
@@ -286,6 +293,37 @@ def random_history(draw, tier):
 
 
 # --------------------------------------------------------------------------
+
+def enum_three_requests_then(tier):
+    """Three clients request the name with every flag combination (owner + up to two waiters, or replacements on the
+    way), then every single operation (quick) / every pair of operations (thorough, flags without do-not-queue)."""
+    letters = [('request', c, 0, f) for c in range(3) for f in range(8)] + \
+              [('release', c, 0) for c in range(3)] + [('disconnect', c) for c in range(3)]
+    for f0, f1, f2 in itertools.product(range(8), repeat=3):
+        pre = [['request', 0, 0, f0], ['request', 1, 0, f1], ['request', 2, 0, f2]]
+        for a in letters:
+            yield {'nclients': 3, 'nnames': 1, 'ops': pre + [list(a)]}
+    if tier != 'quick':
+        for f0, f1, f2 in itertools.product(range(4), repeat=3):
+            pre = [['request', 0, 0, f0], ['request', 1, 0, f1], ['request', 2, 0, f2]]
+            for a, b in itertools.product(letters, repeat=2):
+                yield {'nclients': 3, 'nnames': 1, 'ops': pre + [list(a), list(b)]}
+
+
+@st.composite
+def dense_history(draw, tier):
+    """One name, three or four clients, mostly requests: contention, queues and replacements build up within a few steps."""
+    ops = []
+    for _ in range(draw(st.integers(3, 12))):
+        k = draw(st.sampled_from(['request'] * 8 + ['release', 'release', 'disconnect']))
+        if k == 'request':
+            ops.append(['request', draw(st.integers(0, 3)), 0, draw(st.sampled_from([0, 0, 1, 1, 2, 2, 3, 3, 4, 5, 6, 7]))])
+        elif k == 'release':
+            ops.append(['release', draw(st.integers(0, 3)), 0])
+        else:
+            ops.append(['disconnect', draw(st.integers(0, 3))])
+    return {'nclients': draw(st.integers(3, 4)), 'nnames': 1, 'ops': ops}
+
 
 def enum_client_flags(tier):
     for a, r, q, e in itertools.product([False, True], repeat=4):
@@ -335,6 +373,11 @@ SUBCHECKS = [
              exhaustive_note='every history of length <=3 (quick) / <=4 (thorough) over 3 clients x 1 name x 30 operations'),
     Subcheck('random', run_history, classify, strategy=lambda tier: random_history(tier),
              n={'quick': 100, 'thorough': 1500}),
+    Subcheck('enum_q3', run_history, classify, enumerate=enum_three_requests_then, shards={'quick': 16, 'thorough': 16},
+             exhaustive_note='three requests by three clients with all 8^3 flag combinations, followed by every one of the '
+                             '30 operations (quick); followed by every pair of operations with flags 0-3 (thorough)'),
+    Subcheck('dense', run_history, classify, strategy=lambda tier: dense_history(tier),
+             n={'quick': 500, 'thorough': 5000}, shards={'quick': 8, 'thorough': 16}),
     Subcheck('client_flags', run_client_flags, lambda c: (True, ['code%d' % c['code']]), enumerate=enum_client_flags,
              shards={'quick': 1, 'thorough': 1},
              exhaustive_note='16 requestBusName argument combinations x 4 reply codes'),
